@@ -88,10 +88,11 @@ def scanPlainAddr (address : Option Nat) : Bool :=
 def scanUri (address : Option Nat) (r : Rate) (c : Nat) : Str :=
   mkUri ['0'] ([natStr c, r.text] ++ (if scanPlainAddr address then [] else [natHex true (address.getD 0)])) false none
 
-/-- How a URI names its dongle: the decimal index (fewer than ten digits, so below 10^9), or the serial number of an
-attached dongle in either case.  `devid` is the index `parse_uri` must return. -/
+/-- How a URI names its dongle: the decimal index (fewer than ten digits, so below 10^9; `digits`: any such digit
+string, leading zeros included), or the serial number of an attached dongle in either case.  `devid` is the index `parse_uri` must return. -/
 inductive Dongle (serials : List Str) : Str → Nat → Prop
   | index (d : Nat) (h : d < 10 ^ 9) : Dongle serials (natStr d) d
+  | digits (s : Str) (hne : s ≠ []) (hd : ∀ c ∈ s, isDigit c = true) (hlen : s.length < 10) : Dongle serials s (decVal s)
   | serial (sn : Str) (i : Nat) (hchars : ∀ c ∈ sn, NetlocChar c)
       (hnot : ¬ (sn.length < 10 ∧ sn ≠ [] ∧ ∀ c ∈ sn, isDigit c = true))
       (hidx : indexOf? (sn.map upperAscii) serials = some i) : Dongle serials sn i
